@@ -268,8 +268,9 @@ Fixpoint collect {A} (l : list (result A)) : result (list A) :=
 Definition zip_to_tar (dirloc : Z) (f : bytes) : result (list (bytes * bytes)) :=
   collect (map (tar_member dirloc f) (seq 0 (length ziptotar_members))).
 (* no producer moves the file offset the next GetReader (or Apply) relies on *)
+Definition ziptotar_is_zero_trailer : bool := match ziptotar_trailer_arg with [0] => true | _ => false end.
 Definition producers_use_positioned_reads : bool :=
-  ziptotar_no_seek && taraddstream_no_seek && macho_send_no_seek && dmg_send_no_seek && msitotar_no_seek.
+  ziptotar_is_zero_trailer && ziptotar_no_seek && taraddstream_no_seek && macho_send_no_seek && dmg_send_no_seek && msitotar_no_seek.
 (* ReadZipTar: first member must be the directory (read whole), second the zip, streamed *)
 Definition E_TARZIP := 1.
 Definition read_zip_tar (members : list (bytes * bytes)) : result (bytes * bytes) :=
